@@ -362,9 +362,27 @@ func RunCrash(cfg CrashCfg, t *Trace, seg int) int {
 				continue
 			}
 			nreg++
+			// first an append of a few bytes (a write that starts at the end and ends inside a block: it must not bring back
+			// what a half-done truncation still holds in that block), then the growth
+			end := -1
+			ga := NewCall("GETATTR")
+			ga.Fh = o.fh
+			g2.emit(ga)
+			if ga.St == "OK" && ga.HasAttr && ga.RSize < 1<<30 {
+				end = ga.RSize
+				w := NewCall("WRITE")
+				w.Fh, w.Off, w.Cnt, w.DLen, w.Stable = o.fh, end, 100, 100, 2
+				w.Data = g2.payload(100)
+				g2.learn(g2.emit(w))
+			}
 			c := NewCall("SETATTR")
 			c.Fh, c.SetSize, c.Size = o.fh, true, 700*4096
 			g2.emit(c)
+			if end >= 0 && end < 690*4096 {
+				r := NewCall("READ")
+				r.Fh, r.Off, r.Cnt = o.fh, end, 2*4096
+				g2.emit(r)
+			}
 			for _, off := range []int{0, 2 * 4096, 4*4096 + 100, 528 * 4096, 598 * 4096} {
 				r := NewCall("READ")
 				r.Fh, r.Off, r.Cnt = o.fh, off, 6*4096
